@@ -460,7 +460,11 @@ SPEC = Spec(
         "mappers key by id exactly when duplicates are counted and increment once "
         "per visit; TagCountMapper adds 1 iff tagged and caches 0. "
         "R20-MATERIALIZED: the collector's type tests cover inputs, receives, call "
-        "results, stored tags, sent data and call bindings; outputs only on request."),
+        "results, stored tags, sent data and call bindings; outputs only on request. "
+        "R20-DEPS: for every array kind the set DependencyMapper / "
+        "SubsetDependencyMapper return contains the node itself (access-path flow: "
+        "the root path flows into the result); function-call results are "
+        "represented by the call's dependencies (exempt)."),
     not_decided=(
         "Numeric equality of the returned counts / relations with an independent "
         "enumeration on concrete graphs (follows from R13/R20 but is not measured)."),
